@@ -89,6 +89,24 @@ SEEDS2 = {
     "C20-3": ("C20", ["C20"], "witness: signAndStore helper defers the success increment before Set", "a Set failure after verification passed"),
     "C20-4": ("C20", ["C20"], "witness: split-view counter guarded by a per-log memo of the last reported conflicting root", "the same conflicting root presented twice in a row to one log"),
 }
+SEEDS2.update({
+    "C02-3": ("C02", ["C02", "C12"], "witness.parse: bounded memo of verified checkpoints keyed by sha256(raw) only", "a checkpoint accepted for log A, then the same bytes submitted under another configured log's ID"),
+    "C02-4": ("C02", ["C02", "C09"], "witness.Update: new ErrInvalidCheckpoint for log-signed notes with a bad body/wrong origin, checked only after the stored-state lookup (first use skips it)", "nothing stored for the target ID and a note validly signed by that ID's key over a foreign text (another origin under a shared key, malformed size line)"),
+    "C04-3": ("C04", ["C04", "C07"], "witness.Update: on the refresh path a failing Set is logged and the update reported as accepted", "a stored checkpoint, a same-size resubmission and a Set failure in that call"),
+    "C04-4": ("C04", ["C04"], "witness.Update: the size-0 branch returns (prevRaw, nil) instead of re-signing", "first use at size 0, a resubmission at size 0, and the clock in a later second (stale cosignature)"),
+    "C08-3": ("C08", ["C08"], "signChkpt: up-front count len(UnverifiedSigs)+len(Signers) > 100 replaces the re-open check (forgets the log's line)", "exactly 99 extra unknown signature lines on an accepted checkpoint, then any later update"),
+    "C08-4": ("C08", ["C08"], "witness.Update reads the stored checkpoint with a stricter hand-written parser that requires the body to be followed directly by the signature block", "an accepted checkpoint with extension lines, then any further update"),
+    "C11-3": ("C11", ["C11"], "parseBody reads header lines through a 64-byte bufio reader (isPrefix ignored)", "proof hashes of 46..64 bytes (base64 lines of 64+ characters)"),
+    "C11-4": ("C11", ["C11"], "Proof.Unmarshal: strings.SplitN with limit 64 drops the 64th hash", "a proof of exactly 64 hashes"),
+    "C12-3": ("C12", ["C12", "C02"], "witness.parse memo keyed by the checkpoint bytes only (skips origin and key check for other IDs)", "two logs on one witness, the owner log sees the bytes first, then they are replayed to a log without state"),
+    "C12-4": ("C12", ["C12"], "config.NewLog trims origin/key/URL; AsLogMap keeps the origin verbatim", "an origin with surrounding whitespace (IDs differ between witness map and feeder list; 'x' and 'x ' pass the collision check)"),
+    "C15-3": ("C15", ["C15"], "rest distributor: 'already verified' memo keyed by the hash of the raw bytes only", "two or more logs, the witness answering one log with another configured log's valid, earlier verified checkpoint"),
+    "C15-4": ("C15", ["C15"], "rest DistributeOnce: errgroup.WithContext with limit 2; first failure cancels the others", "two or more logs, one failing and finishing before a healthy one completes its PUT"),
+    "C17-3": ("C17", ["C17", "C12"], "config.NewLog memoised by public-key string keeping the first origin's ID", "two shipped entries sharing a key (the Rekor shards): feeder-side IDs differ from the witness map's keys"),
+    "C17-4": ("C17", ["C17"], "rekor feeder apiRoot helper aliases the parsed URL and clears its query, so treeID reads as empty", "starting any shipped Feeder: rekor entry"),
+    "C18-3": ("C18", ["C18"], "client.tilePath rewritten recursively; the quotient is printed as one x%03d component (wrong from index 10^6)", "tile index >= 1,000,000"),
+    "C18-4": ("C18", ["C18", "C14"], "sumdb feeder: SaveTiles cache keyed by (level, index) without width, reader hoisted out of the proof closure", "one running periodic feeder building two or more proofs for a growing log"),
+})
 SRC = {}
 for _sid in SEEDS2:
     _pid, _k = _sid.split("-")
